@@ -193,6 +193,13 @@ func main() {
 		w, _ := os.Create(f)
 		interp.SolverLog = w
 	}
+	if d := os.Getenv("GOSYM_QUERYDUMP"); d != "" {
+		os.MkdirAll(d, 0o755)
+		interp.QueryDumpDir = d
+		if n, err := strconv.Atoi(os.Getenv("GOSYM_QUERYDUMP_EVERY")); err == nil && n > 0 {
+			interp.QueryDumpEvery = n
+		}
+	}
 	interp.Trace = sp.Trace
 	interp.RepoPrefix = "github.com/bloxapp/ssv/"
 
